@@ -40,7 +40,7 @@ type Kind struct {
 }
 
 var kinds = []string{"http/uri", "http/uri+noconfheaders", "http/uri+preload", "http/uripost", "http/raw", "http/jsonline", "http/jsonline+preload+shared-client", "connect/uri",
-	"http/scenario", "http/scenario+rand", "http/scenario+failing-steps+phout", "grpc/json", "grpc/json+shared-client", "grpc/scenario", "grpc/scenario+failing-steps+phout", "grpc/json+answlog+two-pools", "grpc/scenario+answlog+two-pools", "mock/ownership", "http/uri+phout+composite", "schedule/first-use", "http/uri+datemw", "http/uri+dnscache"}
+	"http/scenario", "http/scenario+rand", "http/scenario+failing-steps+phout", "grpc/json", "grpc/json+shared-client", "grpc/scenario", "grpc/scenario+failing-steps+phout", "grpc/json+answlog+two-pools", "grpc/scenario+answlog+two-pools", "grpc/json+discard-overflow", "mock/ownership", "http/uri+phout+composite", "schedule/first-use", "http/uri+datemw", "http/uri+dnscache"}
 
 func skipType(t reflect.Type) bool {
 	switch t.Name() {
@@ -491,6 +491,21 @@ scenarios:
 		gresult = map[string]any{"type": "phout", "destination": pp, "id": true}
 	}
 	pool := poolMap(ammo, gun, gresult, k.Instances, k.Ms)
+	if strings.Contains(k.Name, "discard-overflow") {
+		// the first call of every instance stalls for 2.3 s, so the whole pool falls more than 2 s
+		// behind a 400 rps profile: with discard_overflow the overdue requests are discarded (their
+		// ammo goes back to the provider unfired) in between requests that are fired
+		var n atomic.Int64
+		inst := int64(k.Instances)
+		tgt.Delay = func(*vkit.CallRec) time.Duration {
+			if n.Add(1) <= inst {
+				return 2300 * time.Millisecond
+			}
+			return 0
+		}
+		pool["rps"] = map[string]any{"type": "const", "ops": 400, "duration": fmt.Sprintf("%dms", k.Ms)}
+		pool["discard_overflow"] = true
+	}
 	pools := []any{pool}
 	if strings.Contains(k.Name, "answlog+two-pools") {
 		// two independent pools of guns that each keep an answer log of their own: the guns of one
@@ -744,7 +759,11 @@ func main() {
 	for rep := 0; rep < reps; rep++ {
 		for i, kn := range kinds {
 			inst := []int{8, 16, 12}[(i+rep)%3]
-			cases = append(cases, Kind{Name: kn, Instances: inst, Ms: ms, Rep: rep})
+			kms := ms
+			if strings.Contains(kn, "discard-overflow") && kms < 3500 {
+				kms = 3500
+			}
+			cases = append(cases, Kind{Name: kn, Instances: inst, Ms: kms, Rep: rep})
 		}
 	}
 	vkit.RunChildren(res, vkit.ChildSpec{Kind: "c11", Batches: vkit.Batches(cases, 1), Parallel: 4, Timeout: 10 * time.Minute, MemKB: 0,
